@@ -23,9 +23,10 @@ IRFLAGS = ['-fno-vectorize', '-fno-slp-vectorize', '-fno-unroll-loops', '-fno-di
            '-Wno-everything']
 CBMC_SAFETY = ['--unwinding-assertions', '--signed-overflow-check', '--undefined-shift-check',
                '--drop-unused-functions', '--no-malloc-may-fail', '--no-standard-checks', '--bounds-check', '--pointer-check',
-               '--div-by-zero-check', '--object-bits', '12']
+               '--div-by-zero-check', '--object-bits', '12', '--max-field-sensitivity-array-size', '256']
 NCPU = os.cpu_count() or 8
 print_lock = threading.Lock()
+procs = set(); procs_lock = threading.Lock()   # process groups of running solver jobs (killed when the runner is interrupted)
 
 def log(*a):
     with print_lock:
@@ -146,12 +147,18 @@ def cbmc_run(work, tag, files, defs, opts, timeout, memgb):
     shcmd = 'ulimit -v %d; exec /usr/bin/time -o %s -f "%%M %%e" %s > %s 2>&1' % (int(memgb * 1024 * 1024), tm, ' '.join("'%s'" % c for c in cmd), out)
     open(os.path.join(work, tag + '.cmd'), 'w').write(' '.join("'%s'" % c for c in cmd) + '\n')
     t0 = time.time()
+    import signal
+    pr = subprocess.Popen(['bash', '-c', shcmd], start_new_session=True)
+    with procs_lock: procs.add(pr.pid)
     try:
-        p = subprocess.run(['bash', '-c', shcmd], timeout=timeout)
-        rc = p.returncode
+        rc = pr.wait(timeout=timeout)
     except subprocess.TimeoutExpired:
-        subprocess.run(['pkill', '-f', out], check=False)
+        try: os.killpg(pr.pid, signal.SIGKILL)
+        except OSError: pass
+        pr.wait()
+        with procs_lock: procs.discard(pr.pid)
         return {'status': 'TIMEOUT', 'props': [], 'traces': {}, 'seconds': round(time.time() - t0, 1), 'rss_mb': 0, 'cmd': cmd}
+    with procs_lock: procs.discard(pr.pid)
     secs = round(time.time() - t0, 1); rss = 0
     try:
         a = open(tm).read().split(); rss = int(a[-2]) // 1024
@@ -212,7 +219,7 @@ def harness_loops(work, tag, files, defs):
                 loc = lp.get('sourceLocation', {})
                 f = loc.get('file', '')
                 b = os.path.basename(f)
-                if (os.path.dirname(os.path.abspath(f)) == HARNESS and b.endswith('.c')) or b in ('rt.h', 'vp.h', 'ghost.h'):
+                if (os.path.dirname(os.path.abspath(f)) == HARNESS and b.endswith('.c')) or b in ('rt.h', 'vp.h', 'ghost.h', 'ghost_more.h'):
                     out.append(lp['name'])
                 else:
                     mk = marks.get((os.path.abspath(os.path.join(loc.get('workingDirectory', ''), f)), int(loc.get('line', 0))))
@@ -330,8 +337,16 @@ def load_findings(pid):
     if not os.path.exists(f): return []
     return [x for x in json.load(open(f)).get('findings', []) if x['property'] == pid]
 
+def kill_jobs():
+    import signal
+    with procs_lock: ps = list(procs)
+    for p_ in ps:
+        try: os.killpg(p_, signal.SIGKILL)
+        except OSError: pass
+
 def main():
-    import argparse
+    import argparse, signal
+    signal.signal(signal.SIGTERM, lambda *a_: (kill_jobs(), os._exit(2)))
     ap = argparse.ArgumentParser()
     ap.add_argument('pid'); ap.add_argument('--tier', default=os.environ.get('VERIF_TIER', 'quick'))
     ap.add_argument('--replay'); ap.add_argument('--only'); ap.add_argument('--keep', action='store_true')
@@ -354,7 +369,10 @@ def main():
             rc = do_check(spec, pid, tier, seed, work, a, t_start)
     except Broken as e:
         log('BROKEN property=%s: %s' % (pid, e)); rc = 2
+    except KeyboardInterrupt:
+        rc = 2
     finally:
+        kill_jobs()
         if not a.keep: shutil.rmtree(work, ignore_errors=True)
         try:
             if not os.listdir(os.path.join(VERIF, '.work')): os.rmdir(os.path.join(VERIF, '.work'))
@@ -502,6 +520,11 @@ def do_check(spec, pid, tier, seed, work, a, t_start):
         rec = {'property': pid, 'harness': h['name'], 'defs': defs_for(h, findings), 'failed_assertion': p['desc'], 'location': p['loc'],
                'cbmc_property': p['name'], 'inputs': ins, 'tier': tier, 'also_failed': also}
         ok, why = (None, 'no native replay driver for this harness')
+        locfile = p['loc'].split(':')[0]
+        if (locfile in ('cursor_contract.h', 'ghost.h', 'ghost_more.h', 'rt.h', 'vp.h', 'str_real.h') or locfile == h['file']) and ('unwinding assertion' in p['desc'] or 'harness bound' in p['desc']):
+            # a bound of the harness or of a model is too small for this tree: not a statement about the code under test
+            broken.append('%s: harness/model bound exceeded: "%s" at %s' % (h['name'], p['desc'], p['loc']))
+            continue
         if h.get('replay'):
             try:
                 ok, why = replay_record(native, spec, h, rec, work)
